@@ -19,7 +19,7 @@ Requests: `rr members map`, `gen members map`, `encode version map`, `decode hex
 `genb wmembers map`, `leader wmembers map` (the map is what `_load_topic_partitions` answers),
 `meta-enc version strs`, `meta-dec hex`, `utf8-enc string`, `utf8-dec hex`,
 `load strs replies` (replies joined by `/`, each `topic=err:ints` entries joined by `|`, empty `-`),
-`mon-load strs map`,
+`mon-load strs map`, `mon-loadfull strs reply map` (the reply that completed the load),
 `mon members map obs`, `mon-own map map`, `mon-same obs obs`.
 -/
 namespace Driver.Assign
@@ -167,6 +167,9 @@ def step (st : Unit) (line : String) : Unit × List String :=
   | ["mon-load", asked, snap] => match parseStrs asked, parseMap snap with
     | some asked, some snap => (st, [okFail (loadCovers asked snap)])
     | _, _ => (st, ["bad-op"])
+  | ["mon-loadfull", asked, reply, snap] => match parseStrs asked, parseReply reply, parseMap snap with
+    | some asked, some reply, some snap => (st, [okFail (loadFaithful asked reply snap)])
+    | _, _, _ => (st, ["bad-op"])
   | ["mon", ms, tp, obs] => match parseMembers ms, parseMap tp, parseObs obs with
     | some ms, some tp, some obs =>
       (st, [s!"answers={okFail (answersAll ms obs)} once={okFail (exactlyOnce ms tp obs)} else={okFail (nothingElse ms tp obs)} sub={okFail (onlySubscribed ms obs)} bal={okFail (balanced ms obs)} wf={yesNo (wellFormed ms tp)} ident={yesNo (identicalSubs ms)}"])
